@@ -43,6 +43,10 @@ enum Field {
     SkipGap(bool),
     /// flagA, flagB, a (U16BE, present iff flagA != 0), b (u8, present iff flagB != 0) (4 nodes): two skips pending at once
     SkipTwo(bool, bool),
+    /// a: U16BE, then a flag byte whose SkipField names the EARLIER field a (no effect: a is already on the wire) (2 nodes)
+    SkipBack(bool),
+    /// flagA (skip b), b = a flag byte that would skip c, c: U16BE (3 nodes): when b is skipped its own option must not apply
+    SkipChain(bool, bool),
     /// trailing optional U16LE, present or absent (last only)
     OptU16(bool),
     /// trailing byte block reading to the end (last only)
@@ -55,8 +59,8 @@ impl Field {
     fn nodes(&self) -> usize {
         match self {
             Field::SkipTwo(..) => 4,
-            Field::TrameU16U8 | Field::Nested | Field::SkipGap(_) => 3,
-            Field::SizedBytes(_) | Field::SizedArray(_) | Field::SkipPair(_) => 2,
+            Field::TrameU16U8 | Field::Nested | Field::SkipGap(_) | Field::SkipChain(..) => 3,
+            Field::SizedBytes(_) | Field::SizedArray(_) | Field::SkipPair(_) | Field::SkipBack(_) => 2,
             _ => 1,
         }
     }
@@ -92,6 +96,12 @@ fn field_menu() -> Vec<Field> {
         Field::SkipTwo(true, false),
         Field::SkipTwo(false, true),
         Field::SkipTwo(false, false),
+        Field::SkipBack(true),
+        Field::SkipBack(false),
+        Field::SkipChain(true, true),
+        Field::SkipChain(true, false),
+        Field::SkipChain(false, true),
+        Field::SkipChain(false, false),
         Field::OptU16(true),
         Field::OptU16(false),
         Field::Rest(0),
@@ -120,6 +130,20 @@ struct Built {
     empty: Component,
     bytes: Vec<u8>,
     leaves: Vec<Leaf>,
+}
+
+/// structured messages for other checks (C14 frames them): every one-field shape of the menu plus a few two-field
+/// ones, as (description, message, reference bytes)
+pub fn structured_messages() -> Vec<(String, Component, Vec<u8>)> {
+    let menu = field_menu();
+    let mut shapes: Vec<Vec<Field>> = menu.iter().map(|f| vec![f.clone()]).collect();
+    for f in menu.iter().filter(|f| !f.last_only()) {
+        shapes.push(vec![Field::U16LE, f.clone(), Field::Rest(2)]);
+    }
+    shapes.into_iter().map(|sh| {
+        let b = build(&sh, 1);
+        (format!("{:?}", sh), b.msg, b.bytes)
+    }).collect()
 }
 
 fn build(shape: &[Field], variant: usize) -> Built {
@@ -319,6 +343,49 @@ fn build(shape: &[Field], variant: usize) -> Built {
                     leaves.push(Leaf::B(vb));
                 }
             }
+            Field::SkipBack(active) => {
+                // the flag comes after the field it names: every traversal (write, length, read) has already passed it
+                let flag: u8 = if *active { 0 } else { 1 };
+                let v = nx16();
+                let first = format!("f{}a", i);
+                let filt = |t: String| move |x: &u8| if *x == 0 { MessageOption::SkipField(t.clone()) } else { MessageOption::None };
+                msg.insert(first.clone(), Box::new(U16::BE(v)));
+                msg.insert(name.clone(), Box::new(DynOption::new(flag, filt(first.clone()))));
+                empty.insert(first.clone(), Box::new(U16::BE(0)));
+                empty.insert(name, Box::new(DynOption::new(0u8, filt(first))));
+                w.u16be(v).u8(flag);
+                leaves.push(Leaf::H(v));
+                leaves.push(Leaf::B(flag));
+            }
+            Field::SkipChain(pb, pc_flag) => {
+                // flagA == 0 skips b; b (when present) == 0 skips c. A skipped b says nothing about c.
+                let fa: u8 = if *pb { 1 } else { 0 };
+                let fb: u8 = if *pc_flag { 1 } else { 0 };
+                let vc = nx16();
+                let nb = format!("f{}b", i);
+                let nc = format!("f{}c", i);
+                let filt = |t: String| move |x: &u8| if *x == 0 { MessageOption::SkipField(t.clone()) } else { MessageOption::None };
+                msg.insert(name.clone(), Box::new(DynOption::new(fa, filt(nb.clone()))));
+                msg.insert(nb.clone(), Box::new(DynOption::new(fb, filt(nc.clone()))));
+                msg.insert(nc.clone(), Box::new(U16::BE(vc)));
+                empty.insert(name, Box::new(DynOption::new(0u8, filt(nb.clone()))));
+                // the empty message starts with b = 1 (no skip): when b is not on the wire it must stay inert
+                empty.insert(nb, Box::new(DynOption::new(1u8, filt(nc.clone()))));
+                empty.insert(nc, Box::new(U16::BE(0)));
+                w.u8(fa);
+                leaves.push(Leaf::B(fa));
+                let c_present = if *pb {
+                    w.u8(fb);
+                    leaves.push(Leaf::B(fb));
+                    *pc_flag
+                } else {
+                    true
+                };
+                if c_present {
+                    w.u16be(vc);
+                    leaves.push(Leaf::H(vc));
+                }
+            }
             Field::OptU16(present) => {
                 let v = nx16();
                 if *present {
@@ -398,7 +465,7 @@ enum Case {
     PerInt16Row(u16),
     PerOid([u8; 6]),
     PerOctets { len: usize, min: usize },
-    PerNumeric(Vec<u8>),
+    PerNumeric(Vec<u8>, usize),
     Asn1Int(u32),
     Asn1Enum(i64),
     Asn1Octets(usize),
@@ -535,7 +602,13 @@ impl Prop for C18 {
             }
         }
         for digits in [&b"1"[..], b"0", b"9", b"12", b"123", b"1234", b"98765", b"00", b"1029384756"] {
-            cs.push(Case::PerNumeric(digits.to_vec()));
+            cs.push(Case::PerNumeric(digits.to_vec(), 1));
+        }
+        // every minimum 0..3 x every length min..min+5 (incl. the empty string with minimum 0)
+        for min in 0..=3usize {
+            for len in min..=min + 5 {
+                cs.push(Case::PerNumeric((0..len).map(|i| b'0' + ((i * 7 + 3) % 10) as u8).collect(), min));
+            }
         }
         for v in [0u32, 1, 0x7F, 0x80, 0xFF, 0x100, 0x7FFF, 0x8000, 0xFFFF, 0x10000, 0x7FFFFF, 0x800000, 0xFFFFFF, 0x1000000, 0x7FFF_FFFF, 0x8000_0000, 0xFFFF_FFFF, 34, 0xfc17, 0xfff8] {
             cs.push(Case::Asn1Int(v));
@@ -584,7 +657,7 @@ impl Prop for C18 {
         json!({"idx": idx, "case": self.cases[idx as usize]})
     }
     fn rule(&self) -> String {
-        "cases: [model] every message shape of <=4 nodes (<=5 thorough) over {u8, U16/U32 LE/BE, fixed byte block, Check, Trame, nested Component, size-dependent byte block and array (DynOption Size), skippable field (DynOption SkipField: adjacent target, distant target, two skips pending at once), trailing Option present/absent, trailing rest-of-input block, trailing array} x 2 (5) value variants from {0,1,7F,80,FF,...}: length()==bytes written==reference bytes, read into an empty same-shape message reproduces every leaf and consumes exactly; [per] every length 0..0x7FFF, integers (all of u16, u32 boundaries; all 2^32 in thorough), integer16 (value,minimum) boundary pairs and whole rows, every nibble-valid 6-arc OID over {0,1,15,16,127,128,255}, octet strings at every length boundary, numeric strings; [asn1] INTEGER/ENUMERATED/OCTET STRING boundaries and the tagged shapes of MCS/CredSSP against an independent DER codec; [gcc] conference create request for block sizes across the PER length boundaries, every response of the reference encoder over versions x optional SC_CORE fields x 0..31 channels x 6 block orders x unknown block x node ids. Non-trivial: every case except single-leaf model shapes.".into()
+        "cases: [model] every message shape of <=4 nodes (<=5 thorough) over {u8, U16/U32 LE/BE, fixed byte block, Check, Trame, nested Component, size-dependent byte block and array (DynOption Size), skippable field (DynOption SkipField: adjacent target, distant target, two skips pending at once, a skip naming an earlier field, a skipped field that itself carries a skip), trailing Option present/absent, trailing rest-of-input block, trailing array} x 2 (5) value variants from {0,1,7F,80,FF,...}: length()==bytes written==reference bytes, read into an empty same-shape message reproduces every leaf and consumes exactly; [per] every length 0..0x7FFF, integers (all of u16, u32 boundaries; all 2^32 in thorough), integer16 (value,minimum) boundary pairs and whole rows, every nibble-valid 6-arc OID over {0,1,15,16,127,128,255}, octet strings at every length boundary, numeric strings; [asn1] INTEGER/ENUMERATED/OCTET STRING boundaries and the tagged shapes of MCS/CredSSP against an independent DER codec; [gcc] conference create request for block sizes across the PER length boundaries, every response of the reference encoder over versions x optional SC_CORE fields x 0..31 channels x 6 block orders x unknown block x node ids. Non-trivial: every case except single-leaf model shapes.".into()
     }
     fn assumptions(&self) -> Vec<String> {
         vec![
@@ -716,21 +789,21 @@ impl Prop for C18 {
                 }
                 Outcome::pass("per-octets", true)
             }
-            Case::PerNumeric(d) => {
+            Case::PerNumeric(d, min) => {
                 let mut c = Cursor::new(Vec::new());
-                if let Err(e) = lper::write_numeric_string(&d, 1, &mut c) {
+                if let Err(e) = lper::write_numeric_string(&d, min, &mut c) {
                     return fail("per-numeric-write-error", format!("{:?}", e));
                 }
                 let lib = c.into_inner();
                 let mut w = W::new();
-                rper::write_numeric_string(&mut w, &d, 1);
+                rper::write_numeric_string(&mut w, &d, min);
                 if lib != w.0 {
                     return fail("per-numeric-string-bytes-differ-from-reference", format!("{:?}: lib {} ref {}", String::from_utf8_lossy(&d), hex(&lib), hex(&w.0)));
                 }
                 let mut sentinel = w.0.clone();
                 sentinel.extend_from_slice(&[0xEE, 0xEE, 0xEE]);
                 let mut cur = Cursor::new(sentinel);
-                match lper::read_numeric_string(1, &mut cur) {
+                match lper::read_numeric_string(min, &mut cur) {
                     Ok(_) if cur.position() == w.0.len() as u64 => {}
                     Ok(_) => return fail("per-numeric-string-read-consumes-wrong-count", format!("{:?}: consumed {} of {}", String::from_utf8_lossy(&d), cur.position(), w.0.len())),
                     Err(e) => return fail("per-numeric-string-read-error", format!("{:?}", e)),
